@@ -263,6 +263,10 @@ def _d2(chk, fb, fns):
                         return True
                     if t in ("%s.size()" % ctext, "%s.length()" % ctext) and tr is True:
                         return True       # 'size() == 0' / 'size() != 0' reach the CFG layer as the truthiness of size()
+                    if t in ('(%s == "")' % ctext, '("" == %s)' % ctext) and tr is False:
+                        return True
+                    if t in ('(%s != "")' % ctext, '("" != %s)' % ctext) and tr is True:
+                        return True
                     if t in ("(%s.size() == 0)" % ctext, "(%s.length() == 0)" % ctext) and tr is False:
                         return True
                     if t in ("(%s.size() > 0)" % ctext, "(%s.size() != 0)" % ctext, "(%s.size() >= %d)" % (ctext, c)) and tr is True:
@@ -276,6 +280,20 @@ def _d2(chk, fb, fns):
                 return False
             ok, path = e1.guarded_by(cfg, cfg.stmt_block(e), est)
             caller_controlled = (root and root[0] == "v" and any(p["id"] == root[1] for p in f.params)) or (root and root[0] == "f" and root[1] in MAY_BE_EMPTY_MEMBERS)
+            # a guard in front does not cover a later re-assignment of the string from parts that may all be empty
+            reass0 = _possibly_empty_reassignment(f, cfg, cont, e, est) if role == "index" else None
+            if reass0 is not None:
+                ok = False
+            if ok:
+                # the guard must still hold at the access: a statement that can shrink the container, from which the access is
+                # reachable without passing the test again, takes the proof away (not a refutation: it may leave elements)
+                shr = [w for w in f.calls() if "obj" in w and render(f.obj(w)) == ctext and w["callee"]["name"] in ("erase", "pop_back", "pop_front", "clear", "resize", "assign", "operator=", "swap")]
+                tb_ = cfg.stmt_block(e)
+                unguarded = [w for w in shr if cfg.stmt_block(w) is not None and cfg.stmt_block(w) != tb_ and not e1.guarded_by(cfg, tb_, est, entry=cfg.stmt_block(w))[0]
+                             and e1.path_exists(cfg, cfg.stmt_block(w), tb_)]
+                if unguarded:
+                    chk.unknown("D2", f.key, "underflow:%s.size()-%d" % (ctext, c), f.loc(e), "guarded at first, but '%s' (%s) can shrink the container before the access is reached again" % (render(unguarded[0])[:50], f.loc(unguarded[0])))
+                    continue
             if ok:
                 chk.proved("D2", f.key, "underflow:%s.size()-%d" % (ctext, c), f.loc(e), "guarded by a non-emptiness test")
             elif caller_controlled and role == "loop bound" and _loop_indexes(f, f.enclosing(par, ("ForStmt", "WhileStmt")), ctext):
@@ -287,6 +305,13 @@ def _d2(chk, fb, fns):
                 chk.refuted("D2", f.key, "underflow:%s.size()-%d" % (ctext, c), f.loc(e), "'%s[%s.size() - %d]' with no emptiness guard on a caller-supplied container" % (ctext, ctext, c),
                             witness={"input": "an empty %s" % ctext})
             else:
+                reass = _possibly_empty_reassignment(f, cfg, cont, e, est) if role == "index" else None
+                if reass is not None:
+                    chk.refuted("D2", f.key, "underflow:%s.size()-%d" % (ctext, c), f.loc(e),
+                                "'%s[%s.size() - %d]' is evaluated again after '%s' (%s), every part of which can be empty for caller-supplied text, with no emptiness test in between: "
+                                "the index wraps" % (ctext, ctext, c, render(reass)[:70], f.loc(reass)),
+                                witness={"input": "text whose merged pieces are both empty (e.g. a line holding only the continuation character followed by an empty line)"})
+                    continue
                 empty_path = _still_empty_path(f, cfg, cont, e, est) if role == "index" else None
                 if empty_path:
                     chk.refuted("D2", f.key, "underflow:%s.size()-%d" % (ctext, c), f.loc(e),
@@ -296,6 +321,62 @@ def _d2(chk, fb, fns):
                 else:
                     chk.unknown("D2", f.key, "underflow:%s.size()-%d" % (ctext, c), f.loc(e), "no local guard; emptiness depends on an invariant established elsewhere")
     chk.floor("D2", "'size() - c' bounds/indices", n, 3)
+
+
+def _possibly_empty_reassignment(f, cfg, cont, site, est):
+    """a std::string local that is indexed at size() - k: an assignment 's = E' from which the access is reachable without
+    passing an emptiness test, where E is built only from parts that may be empty (substr of anything, elements of a
+    caller-supplied container, string parameters, '+' of such parts) - no literal, no character appended"""
+    c0 = strip(cont)
+    if c0["k"] != "DeclRefExpr" or c0["decl"]["kind"] != "local" or "basic_string" not in (c0["decl"].get("ty") or ""):
+        return None
+    did = c0["decl"]["id"]
+    params = {p_["id"] for p_ in f.params}
+    sized_from_param = set()
+    for dn in f.all_nodes():
+        if dn["k"] == "DeclStmt":
+            for d in dn["decls"]:
+                i0 = strip(d["init"]) if d.get("init") is not None else None
+                if i0 is not None and i0["k"] == "CXXConstructExpr" and "vector" in (d.get("ty") or "") and any(x["k"] == "DeclRefExpr" and x["decl"]["id"] in params for x in walk(i0)):
+                    sized_from_param.add(d["id"])
+
+    def may_be_empty(n, depth=0):
+        n = strip(n)
+        if n is None or depth > 6:
+            return False
+        if n["k"] == "StringLiteral":
+            return (n.get("val") or "") == ""
+        if n["k"] == "CharacterLiteral":
+            return False
+        if is_call(n):
+            nm = n["callee"]["name"]
+            if nm == "substr":
+                return True
+            if nm == "operator+" or n.get("op") == "+":
+                return all(may_be_empty(a, depth + 1) for a in f.args(n)) and bool(f.args(n))
+            if nm in ("operator[]", "at") and "obj" in n:
+                r = e1._root_decl(f.obj(n))
+                return bool(r) and r[0] == "v" and (r[1] in params or r[1] in sized_from_param)
+            if n["callee"].get("via") == "ctor" and len(f.args(n)) == 1:
+                return may_be_empty(f.args(n)[0], depth + 1)
+            return False
+        if n["k"] == "DeclRefExpr":
+            return n["decl"]["id"] in params and "basic_string" in (n["decl"].get("ty") or "")
+        return False
+    target = cfg.stmt_block(site)
+    for w in f.calls():
+        if w["callee"]["name"] == "operator=" and "obj" in w and f.args(w):
+            o = strip(f.obj(w))
+            if o["k"] == "DeclRefExpr" and o["decl"]["id"] == did and may_be_empty(f.args(w)[0]):
+                wb = cfg.stmt_block(w)
+                if wb is None or target is None:
+                    continue
+                declb = {cfg.stmt_block(dn) for dn in f.all_nodes() if dn["k"] == "DeclStmt" and any(d["id"] == did for d in dn["decls"])}
+                ok, path = e1.guarded_by(cfg, target, est, entry=wb, through=declb - {wb})
+                # the path must not pass another assignment of the local (that one would be the reaching definition)
+                if not ok and path and not any(cfg.stmt_block(w2) in path[1:-1] for w2 in f.calls() if w2 is not w and w2["callee"]["name"] == "operator=" and "obj" in w2 and strip(f.obj(w2))["k"] == "DeclRefExpr" and strip(f.obj(w2))["decl"]["id"] == did):
+                    return w
+    return None
 
 
 def _still_empty_path(f, cfg, cont, site, est):
